@@ -116,7 +116,7 @@ func nlOpsString(ops []nlOp) string {
 func TestC19(t *testing.T) {
 	r := ev.Open(t, "C19")
 	defer r.Close(t)
-	r.Rule("histories: every sequence of Set/Append/Add over 3 tags (nil tag, en, fr) x 2 texts up to the length bound, then random longer ones over 4 tags x 4 texts; " +
+	r.Rule("histories: every sequence of Set/Append/Add over 3 tags (nil tag, en, fr; and, one step shorter, the empty tag, the nil tag, en) x 2 texts up to the length bound, then random longer ones over 5 tags (incl. the empty one) x 4 texts; " +
 		"after every step Count, First, the tag sequence and Get(tag) for every tag are compared with a reference list of (tag,text) entries. " +
 		"equality: all ordered pairs of lists without repeated tags of length <= 3, Equals(a,b) iff same set of pairs. " +
 		"non-trivial history = contains a Set on a present tag after >= 2 entries; non-trivial pair = both lists have >= 2 entries; distinct by op sequence / pair")
@@ -131,49 +131,65 @@ func TestC19(t *testing.T) {
 			}
 		}
 	}
-	if r.WantLayer("histories", true) {
-		maxLen := r.Pick(4, 5)
-		total := 0
-		var rec func(prefix []nlOp, n ap.NaturalLanguageValues, m nlModel, nt bool)
-		rec = func(prefix []nlOp, n ap.NaturalLanguageValues, m nlModel, nt bool) {
-			if len(prefix) > 0 {
-				total++
-				cell := nlOpsString(prefix)
-				r.Case(cell, nt, fmt.Sprintf("histories len=%d", len(prefix)))
-				if total%20011 == 0 {
-					r.Sample(cell, map[string]interface{}{"layer": "histories", "ops": cell, "final": fmt.Sprint(m)})
-				}
-			}
-			if len(prefix) == maxLen {
-				return
-			}
-			for _, o := range ops {
-				cell := nlOpsString(append(prefix, o))
-				if r.Replaying() && !strings.HasPrefix(r.ReplayCell(), cell) {
-					continue
-				}
-				n2 := append(ap.NaturalLanguageValues(nil), n...)
-				var key, detail string
-				m2 := m.apply(o)
-				pi := evSafe(func() {
-					nlApply(&n2, o)
-					key, detail = nlCheck(n2, m2, m, o, tags3)
-				})
-				if pi != nil {
-					key, detail = "nlv panic@"+pi.Frame, pi.Value
-				}
-				if key != "" {
-					r.Report("histories", cell, key, "after "+cell+": "+detail, map[string]interface{}{"ops": cell})
-					continue // the implementation diverged from the model; deeper steps would only repeat it
-				}
-				_, present := m.get(o.Tag)
-				rec(append(prefix, o), n2, m2, nt || (o.Kind == "set" && present && len(m) >= 2))
+	// a second alphabet holds the empty tag next to the nil tag: two different keys of the map
+	tagsE := []ap.LangRef{"", ap.NilLangRef, "en"}
+	var opsE []nlOp
+	for _, k := range []string{"set", "append", "add"} {
+		for _, tg := range tagsE {
+			for _, tx := range texts2 {
+				opsE = append(opsE, nlOp{k, tg, tx})
 			}
 		}
-		rec(nil, nil, nil, false)
+	}
+	if r.WantLayer("histories", true) {
+		total := 0
+		for pass, ops := range [][]nlOp{ops, opsE} {
+			maxLen := r.Pick(4, 5)
+			tags3 := tags3
+			if pass == 1 {
+				maxLen, tags3 = r.Pick(3, 4), tagsE
+			}
+			var rec func(prefix []nlOp, n ap.NaturalLanguageValues, m nlModel, nt bool)
+			rec = func(prefix []nlOp, n ap.NaturalLanguageValues, m nlModel, nt bool) {
+				if len(prefix) > 0 {
+					total++
+					cell := nlOpsString(prefix)
+					r.Case(cell, nt, fmt.Sprintf("histories len=%d", len(prefix)), fmt.Sprintf("histories alphabet=%d", pass))
+					if total%20011 == 0 {
+						r.Sample(cell, map[string]interface{}{"layer": "histories", "ops": cell, "final": fmt.Sprint(m)})
+					}
+				}
+				if len(prefix) == maxLen {
+					return
+				}
+				for _, o := range ops {
+					cell := nlOpsString(append(prefix, o))
+					if r.Replaying() && !strings.HasPrefix(r.ReplayCell(), cell) {
+						continue
+					}
+					n2 := append(ap.NaturalLanguageValues(nil), n...)
+					var key, detail string
+					m2 := m.apply(o)
+					pi := evSafe(func() {
+						nlApply(&n2, o)
+						key, detail = nlCheck(n2, m2, m, o, tags3)
+					})
+					if pi != nil {
+						key, detail = "nlv panic@"+pi.Frame, pi.Value
+					}
+					if key != "" {
+						r.Report("histories", cell, key, "after "+cell+": "+detail, map[string]interface{}{"ops": cell})
+						continue // the implementation diverged from the model; deeper steps would only repeat it
+					}
+					_, present := m.get(o.Tag)
+					rec(append(prefix, o), n2, m2, nt || (o.Kind == "set" && present && len(m) >= 2))
+				}
+			}
+			rec(nil, nil, nil, false)
+		}
 		r.Cells(total, total)
 		r.Exhaustive("histories", !r.Replaying())
-		r.Note("history_length_bound", maxLen)
+		r.Note("history_length_bound", r.Pick(4, 5))
 	}
 
 	if r.WantLayer("equality", true) {
@@ -244,7 +260,7 @@ func TestC19(t *testing.T) {
 		r.Exhaustive("equality", !r.Replaying())
 	}
 
-	tags4 := []ap.LangRef{ap.NilLangRef, "en", "fr", "de"}
+	tags4 := []ap.LangRef{ap.NilLangRef, "en", "fr", "de", ""}
 	texts4 := []string{"one", "two", "", "drei"}
 	r.Rapid(t, "random", r.Pick(3000, 20000), func(t *rapid.T) {
 		nops := rapid.IntRange(1, 30).Draw(t, "n")
